@@ -167,6 +167,13 @@ def emit(traits_dir):
     lines += ["/-- `TraitList.__init__` -/", "def traitListInit : Func :=", f.emit(), ""]
     g = Fn(find(tree, "TraitListObject", "__init__"), ["trait", "object", "name", "value"])
     lines += ["/-- `TraitListObject.__init__` -/", "def traitListObjectInit : Func :=", g.emit(), ""]
+    stree = ast.parse(open(os.path.join(traits_dir, "trait_set_object.py")).read())
+    f = Fn(find(stree, "TraitSet", "__init__"), ["value", "item_validator", "notifiers"])
+    if f.kwonly != ["item_validator", "notifiers"]:
+        raise Unknown("TraitSet.__init__: keyword-only parameters")
+    lines += ["/-- `TraitSet.__init__` -/", "def traitSetInit : Func :=", f.emit(), ""]
+    g = Fn(find(stree, "TraitSetObject", "__init__"), ["trait", "object", "name", "value"])
+    lines += ["/-- `TraitSetObject.__init__` -/", "def traitSetObjectInit : Func :=", g.emit(), ""]
     lines.append("end TraitsVerif.Generated.Ctor")
     return "\n".join(lines) + "\n"
 
